@@ -187,6 +187,64 @@ pub fn dosc_history(out: &mut crate::Out, tag: &str, seed: u64, net: NetID, thor
         // a payment follows in the same block (the raised speed must survive later batches of the block), and later rounds
         // mint older coins against the raised speed of the previous block
         if round == 1 || (thorough && round == 3) {
+            // several fast mints of different speeds next to other transactions in ONE batch, in many orders and pool sizes: the
+            // recorded speed is the maximum over the batch whatever the order of reduction (side branches only)
+            {
+                let h = d.view().height.0;
+                let youngs: Vec<(CoinID, CoinDataHeight)> = d.spendable().into_iter().filter(|(_, x)| x.coin_data.denom == Denom::Mel && x.coin_data.value.0 > 10_000_000 && x.height.0 + 1 == h).take(3).collect();
+                let mut mints: Vec<Transaction> = vec![];
+                for (i, coin) in youngs.iter().enumerate() {
+                    if let Some(seed_header) = header_at(&d, coin.1.height.0) {
+                        let puzzle = tmelcrypt::hash_keyed(seed_header.hash(), &stdcode::serialize(&coin.0).unwrap());
+                        let difficulty = [15usize, 14, 16][i % 3];
+                        let b = bound(&d, coin.1.height.0, difficulty as u32, true);
+                        let data = stdcode::serialize(&(difficulty as u32, gen_proof(&puzzle, difficulty, true))).unwrap();
+                        if let Some(t) = mint_tx(&mut d, coin, data, b) {
+                            mints.push(t);
+                        }
+                    }
+                }
+                if mints.len() >= 2 {
+                    let used: Vec<CoinID> = mints.iter().flat_map(|t| t.inputs.clone()).collect();
+                    let mut others: Vec<Transaction> = vec![];
+                    for _ in 0..12 {
+                        if let Some(p) = d.random_pay() {
+                            if !p.inputs.iter().any(|c| used.contains(c) || others.iter().any(|o| o.inputs.contains(c))) {
+                                others.push(p);
+                            }
+                        }
+                        if others.len() >= 5 { break; }
+                    }
+                    let key = format!("C03|{}|fastmints|{}", tag, round);
+                    let n = mints.len() + others.len();
+                    let all: Vec<Transaction> = mints.iter().cloned().chain(others.iter().cloned()).collect();
+                    let mut orders: Vec<Vec<usize>> = vec![(0..n).collect(), (0..n).rev().collect()];
+                    // the mints adjacent in both orders at the front, in the middle and at the back
+                    let m = mints.len();
+                    let mut mid: Vec<usize> = (m..n).collect();
+                    for (k, i) in (0..m).enumerate() { mid.insert((n - m) / 2 + k, i); }
+                    orders.push(mid.clone());
+                    let mut midr = mid.clone(); midr.reverse(); orders.push(midr);
+                    let mut back: Vec<usize> = (m..n).collect(); back.extend((0..m).rev()); orders.push(back);
+                    for _ in 0..4 { use rand::seq::SliceRandom; let mut o: Vec<usize> = (0..n).collect(); o.shuffle(&mut d.r); orders.push(o); }
+                    for (oi, o) in orders.iter().enumerate() {
+                        let batch: Vec<Transaction> = o.iter().map(|i| all[*i].clone()).collect();
+                        for threads in [[1usize, 2], [4, 8], [16, 0]][oi % 3] {
+                            d.w.batch(d.cur, &batch, threads, json!({"why": format!("{} fast mints of different speeds among {} transactions, order {}", m, n, oi), "agreeKey": key}));
+                        }
+                    }
+                    // and one at a time
+                    let mut s1 = d.cur;
+                    let mut allok = true;
+                    for t in all.iter() {
+                        let (nid, ok) = d.w.batch(s1, std::slice::from_ref(t), 0, json!({"why": "fast mints one at a time"}));
+                        if ok { s1 = nid; } else { allok = false; }
+                    }
+                    if allok {
+                        d.w.batch(s1, &[], 0, json!({"why": "fast mints: fold end", "agreeKey": key, "fold": true}));
+                    }
+                }
+            }
             let h = d.view().height.0;
             let young = d.spendable().into_iter().find(|(_, x)| x.coin_data.denom == Denom::Mel && x.coin_data.value.0 > 10_000_000 && x.height.0 + 1 == h);
             if let (Some(coin), Some(seed_header)) = (young.clone(), young.and_then(|c| header_at(&d, c.1.height.0))) {
@@ -243,7 +301,7 @@ pub fn dosc_history(out: &mut crate::Out, tag: &str, seed: u64, net: NetID, thor
         // a fresh coin for the next round's fast mint
         if let Some(src) = d.spendable().into_iter().find(|(_, x)| x.coin_data.denom == Denom::Mel && x.coin_data.value.0 > 200_000_000) {
             let a = d.wal.address(CovKind::New(0));
-            if let Some(t) = d.build(TxKind::Normal, &[src], vec![mk_coin(a, 60_000_000, Denom::Mel, &[])], 1, vec![], 0) {
+            if let Some(t) = d.build(TxKind::Normal, &[src], vec![mk_coin(a, 60_000_000, Denom::Mel, &[]), mk_coin(a, 61_000_000, Denom::Mel, &[]), mk_coin(a, 62_000_000, Denom::Mel, &[])], 1, vec![], 0) {
                 d.apply(&[t], 0, json!({"why": "fresh coin"}));
             }
         }
